@@ -15,6 +15,7 @@ import RubatoProofs.Async.FixedOut
 import RubatoProofs.Fft.Control
 import RubatoProofs.Props.C16
 import RubatoProofs.Lemmas.FormulaTie
+import RubatoProofs.Lemmas.DivBridge
 
 set_option linter.unusedSectionVars false
 set_option linter.unusedVariables false
@@ -141,4 +142,24 @@ theorem formulas_read_the_expected_fields_C04 :
     Rubato.Gen.Formulas.formulaParams.lookup "sincOut_output_delay" = some ["sinc_len", "resample_ratio"] := by
   rw [Rubato.FormulaTie.formulas_read_the_expected_fields]
   decide
+end Rubato.C04
+
+namespace Rubato.C04
+open Rubato Rubato.Gen
+
+/-- tie G7 for the synchronous types: the getters the FFT theorems above speak about (with `DivArith.exact`) are the
+getter bodies the translator regenerates from synchro.rs in this run, read over exact arithmetic -/
+theorem fft_getters_are_the_source_formulas {σ υ : Type} (s : FState σ υ) :
+    (s.kind = .fftOut → s.inputFramesMax DivArith.exact =
+        Formulas.fftOut_input_frames_max (ρ := ℚ) s.chunkOut s.fftOut s.fftIn) ∧
+    (s.kind = .fftIn → s.outputFramesNext DivArith.exact =
+        Formulas.fftIn_output_frames_next (ρ := ℚ) s.saved s.chunkIn s.fftIn s.fftOut) ∧
+    (s.kind = .fftIn → s.outputFramesMax =
+        Formulas.fftIn_omax_result (ρ := ℚ)
+          (Formulas.fftIn_omax_max_subchunks_to_process (ρ := ℚ)
+            (Formulas.fftIn_omax_max_available_frames (ρ := ℚ)
+              (Formulas.fftIn_omax_max_stored_frames (ρ := ℚ) s.fftIn) s.chunkIn) s.fftIn) s.fftOut) := by
+  rw [← DivBridge.ofNum_rat_eq_exact]
+  exact ⟨(FormulaTie.fft_getters ℚ s).1, (FormulaTie.fft_getters ℚ s).2.1, (FormulaTie.fft_getters ℚ s).2.2.1⟩
+
 end Rubato.C04
